@@ -132,6 +132,7 @@ fn outcome(program: &Program<Name>, data: &[RData]) -> String {
 
 #[derive(Default)]
 pub struct Local {
+    pub not_reproducible: u64,
     pub functions: u64,
     pub states: u64,
     pub distinct_states: u64,
@@ -171,8 +172,15 @@ pub fn check_states(src: &str, class: &str, s0: &Program<Name>, fin: &Program<Na
     // binding: the harness pipeline's final state is what the implementation returned
     match (flat_of(&states.last().unwrap().1), flat_of(fin)) {
         (Ok(a), Ok(b)) if a == b => l.bound_ok += 1,
-        (Ok(_), Ok(_)) => {
-            if l.machinery.len() < 3 {
+        (Ok(a), Ok(_)) => {
+            // Is the pass sequence itself reproducible?  If a second replay by the harness
+            // already differs from the first, the optimiser's output depends on something
+            // other than its input (C09 decides that property; here the function simply
+            // cannot be bound and is counted).
+            let again = pass_states(s0).ok().and_then(|s2| flat_of(&s2.last().unwrap().1).ok());
+            if again.as_ref() != Some(&a) {
+                l.not_reproducible += 1;
+            } else if l.machinery.len() < 3 {
                 l.machinery.push(format!("binding broken: the harness's replay of the pass sequence ends in a different program than finalize returned for\n{src}"));
             }
             return;
@@ -552,6 +560,7 @@ fn merge(ls: Vec<Local>) -> Local {
     let mut t = Local::default();
     for l in ls {
         t.functions += l.functions;
+        t.not_reproducible += l.not_reproducible;
         t.states += l.states;
         t.distinct_states += l.distinct_states;
         t.transitions += l.transitions;
@@ -684,7 +693,7 @@ fn run_untyped_family(run: &mut Run, _tier: Tier) -> Local {
     let out = par_indices(
         cands.len() as u64,
         16,
-        Some(Duration::from_secs(25)),
+        Some(Duration::from_secs(if _tier == Tier::Quick { 12 } else { 600 })),
         |_| (crate::driver::Proj::new(), Local::default()),
         |(base, l), i| {
             let c = &cands[i as usize];
@@ -734,6 +743,7 @@ pub fn run_with_extra(tier: Tier, replay: Option<String>, extra: Option<&dyn Fn(
         run.sample(s);
     }
     run.set("functions", t.functions);
+    run.set("functions_whose_optimised_form_is_not_reproducible", t.not_reproducible);
     run.set("functions_with_a_difference", t.violating_functions);
     run.set("programs_not_executable_before_the_typed_list_conversion", t.not_executable_before_conversion);
     run.set("differences_per_signature", json!(t.per_signature));
